@@ -26,6 +26,11 @@ func (s pendingTimeout) Timeout(session *session, event internal.Event) (nextSta
 	case internal.PeerTimeout:
 		session.log.OnEvent("Session Timeout")
 		return latentState{}
+	case internal.NeedHeartbeat:
+		// No heartbeat is sent while the answer to the test request is awaited, but the heartbeat
+		// timer is one-shot and only re-armed by sending: swallowing the event would leave the
+		// session silent after the pending state has been left. Arm it again.
+		session.stateTimer.Reset(session.HeartBtInt)
 	}
 
 	return s
